@@ -36,6 +36,8 @@ def parseLabel : List String → Option Label
   | ["invoke", i] => i.toNat?.map .pollInvoke
   | ["ret", i] => i.toNat?.map .pollReturn
   | ["end", i] => i.toNat?.map .pollEnd
+  | ["restart"] => some (.restart false)
+  | ["restart-stop"] => some (.restart true)
   | _ => none
 
 def showDRes : DRes → String
@@ -123,11 +125,14 @@ def specStep (s : SpecSt) (line : String) (implOut : String) : SpecSt × String 
       else if op == "ret" && res == "ok" then s.th.set i { t with pc := 3 }
       else if op == "end" && (res == "ok" || res == "skipped") then s.th.set i { t with pc := 0 }
       else s.th
-    let wakes' := if op == "wake" && res == "ok" then s.wakes + 1 else s.wakes
+    let th' := if (op == "restart" || op == "restart-stop") && res == "ok" then th'.map (fun _ => { pc := 0, epoch := 0 }) else th'
+    let wakes' := if (op == "restart" || op == "restart-stop") && res == "ok" then 0
+                  else if op == "wake" && res == "ok" then s.wakes + 1 else s.wakes
     let s' : SpecSt := { st := st, wakes := wakes', th := th' }
     let quiescent := th'.all fun t => t.pc == 0
     let verdict :=
-      if !edgeOK op s.st st then s!"fail illegal-edge-{s.st}-{st}-by-{op}"
+      if (op == "restart" || op == "restart-stop") && s.st != st then s!"fail restart-did-not-resume-{s.st}-got-{st}"
+      else if !edgeOK op s.st st then s!"fail illegal-edge-{s.st}-{st}-by-{op}"
       else if s.st == "AWAKE" && op != "sleep" && st != "AWAKE" then "fail awake-agent-put-to-sleep-by-poll"
       else if op == "sleep" && s.st != "AWAKE" && (res != "err-already-sleeping" || ev != "-") then "fail sleep-while-asleep-not-refused"
       else if op == "wake" && s.st == "AWAKE" && (res != "err-not-sleeping" || ev != "-") then "fail wake-while-awake-not-refused"
